@@ -89,7 +89,8 @@ class StandardQmpt(StandardQTomography):
     def _validate_schedules(self, schedules):
         for i, schedule in enumerate(schedules):
             if (
-                schedule[0][0] != "state"
+                len(schedule) != 3
+                or schedule[0][0] != "state"
                 or schedule[1][0] != "mprocess"
                 or schedule[2][0] != "povm"
             ):
